@@ -2,7 +2,7 @@
 (* Total trace specification for C10.  Only the REFERENCE layer of StringSpace.tla judges the code.
    Header: cells (names, creation order), arrays (name -> cells), fns (name -> [params, body]).
    One event per BASIC statement executed on the real interpreter:
-     [op, ...operands..., kind ("ok" | "err" | "internal"), code, chg (<<index, new value>> of every cell whose
+     [op, ...operands..., prog (TRUE: executed as a stored program line), kind ("ok" | "err" | "internal"), code, chg (<<index, new value>> of every cell whose
       observed value differs from the previous observation), ae (PEEK(&H35C)+256*PEEK(&H35D) after the statement),
       mem (PEEK(&H2C)+256*PEEK(&H2D)), fre (result of FRE("") / FRE(0) for op "fre" / "fre0")]
    op "begin" starts a new session (all cells empty, constant of the FRE equation not yet known).
@@ -18,7 +18,7 @@ TArrays == [n \in DOMAIN Header.arrays |-> {Header.arrays[n][i] : i \in 1..Len(H
 TFns == Header.fns
 
 Empty == [c \in Cells |-> <<>>]
-TInitS == [ref |-> Empty, ae |-> 0, mem |-> 0, kk |-> FALSE, koff |-> 0]
+TInitS == [ref |-> Empty, code |-> {}, ae |-> 0, mem |-> 0, kk |-> FALSE, koff |-> 0]
 
 Obs(prev, chg) ==       \* chg[i] = <<cell index, value>>
     [c \in Cells |-> IF \E i \in 1..Len(chg) : CellOrder[chg[i][1]] = c
@@ -26,6 +26,9 @@ Obs(prev, chg) ==       \* chg[i] = <<cell index, value>>
 
 \* operations whose outcome (ok / which error) the property leaves open; their effect on values is still demanded
 OpenOutcome(op) == op \in {"erase", "dim", "clear", "nop", "swap"}
+
+IsProg(e) == Has(e, "prog") /\ e.prog
+CodeNext(s0, e) == IF e.kind = "ok" THEN CodeAfter(s0.code, s0.ref, e, IsProg(e)) ELSE s0.code
 
 Judge(s0, e) ==
     LET d     == Do(s0.ref, e)
@@ -37,13 +40,13 @@ Judge(s0, e) ==
              IF obs # s0.ref THEN "failed_statement_changed_a_value"
              ELSE IF e.code = d.err \/ OpenOutcome(e.op) THEN "ok"
              ELSE IF e.code \in {7, 14} THEN
-                  IF s0.kk /\ ~MayRunOut(top, s0.ae, s0.ref, d.need, alloc + (IF e.code = 7 THEN 48 ELSE 0))
+                  IF s0.kk /\ ~MayRunOut(top, s0.ae, s0.ref, s0.code, d.need, alloc + (IF e.code = 7 THEN 64 ELSE 0))
                   THEN "out_of_space_with_sufficient_free_space" ELSE "ok"
              ELSE "error_not_demanded_by_reference"
         ELSE IF d.err # 0 THEN "demanded_error_not_raised"
         ELSE IF obs # d.ref THEN (IF e.op \in {"fre", "fre0", "nop"} THEN "collection_or_read_changed_a_value" ELSE "value_differs_from_reference")
-        ELSE IF e.op = "fre" /\ s0.kk /\ e.fre # FreeAfterGC(s0.koff + e.mem, e.ae, obs) THEN "fre_equation"
-        ELSE IF e.op = "fre0" /\ s0.kk /\ e.fre > FreeAfterGC(s0.koff + e.mem, e.ae, obs) THEN "fre_exceeds_free_space"
+        ELSE IF e.op = "fre" /\ s0.kk /\ e.fre # FreeAfterGC(s0.koff + e.mem, e.ae, obs, CodeNext(s0, e)) THEN "fre_equation"
+        ELSE IF e.op = "fre0" /\ s0.kk /\ e.fre > FreeAfterGC(s0.koff + e.mem, e.ae, obs, CodeNext(s0, e)) THEN "fre_exceeds_free_space"
         ELSE "ok"
 
 Step(e) ==
@@ -52,9 +55,10 @@ Step(e) ==
         obs == Obs(s0.ref, e.chg)
         \* infer / re-synchronise the constant of the FRE equation from a FRE("") observation
         fix == e.op = "fre" /\ e.kind = "ok" /\ (~s0.kk \/ v = "fre_equation")
-    IN  /\ ts' = [ref |-> obs, ae |-> e.ae, mem |-> e.mem,
+        cd  == CodeNext(s0, e)
+    IN  /\ ts' = [ref |-> obs, code |-> cd, ae |-> e.ae, mem |-> e.mem,
                   kk |-> s0.kk \/ fix,
-                  koff |-> IF fix THEN e.fre + e.ae + Live(obs) - e.mem ELSE s0.koff]
+                  koff |-> IF fix THEN e.fre + e.ae + SumLen(obs, Cells \ cd) - e.mem ELSE s0.koff]
         /\ viol' = IF v = "ok" THEN viol ELSE Append(viol, <<l, v>>)
 
 TInit == ts = TInitS /\ l = 1 /\ viol = <<>>
